@@ -82,7 +82,7 @@ def execute_case(prop, case, want_trace=False):
 
 
 def outcome_is_stuck(o):
-    return o in ('hang', 'time-cap')
+    return o in ('hang', 'time-cap', 'spin')
 
 
 def coarse_hash(sim):
